@@ -482,6 +482,8 @@ func (p *Parser) parseSelect(stmt *SelectStatement) error {
 
 func (p *Parser) parseWhere(stmt *SelectStatement) error {
 	var conditions []string
+	var notDepths []int // paren depth at which each lowered "!(" was opened
+	depth := 0
 	current := p.lexer.NextToken() // 获取下一个token
 	if current.Type != TokenWHERE {
 		// 如果不是WHERE，回退token位置
@@ -507,6 +509,7 @@ func (p *Parser) parseWhere(stmt *SelectStatement) error {
 			tok.Type == TokenOrder {
 			break
 		}
+		conditions, notDepths, depth = closeLoweredNots(conditions, notDepths, depth, tok)
 		switch tok.Type {
 		case TokenIdent, TokenNumber, TokenQuotedIdent:
 			conditions = append(conditions, tok.Value)
@@ -529,7 +532,18 @@ func (p *Parser) parseWhere(stmt *SelectStatement) error {
 		case TokenNULL:
 			conditions = append(conditions, "NULL")
 		case TokenNOT:
-			conditions = append(conditions, "NOT")
+			// A logical NOT (at the start of a predicate: after nothing, "(", "&&",
+			// "||" or another NOT) is lowered like AND/OR: expr-lang has no upper-case
+			// NOT, so "NOT (p)" used to compile as a call of an undefined function and
+			// reject every row. SQL's NOT binds looser than comparisons, expr-lang's "!"
+			// tighter, so the operand is parenthesised up to the next AND/OR at the same
+			// depth. "IS NOT NULL" / "x NOT LIKE" keep the keyword.
+			if isLogicalNotPosition(conditions) {
+				conditions = append(conditions, "!", "(")
+				notDepths = append(notDepths, depth)
+			} else {
+				conditions = append(conditions, "NOT")
+			}
 		default:
 			// Handle string value quotes
 			if len(conditions) > 0 && conditions[len(conditions)-1] == "'" {
@@ -542,6 +556,9 @@ func (p *Parser) parseWhere(stmt *SelectStatement) error {
 
 	// Validate functions in WHERE condition. 分析函数调用（含 OVER）先替换为占位符，
 	// 避免 OVER 被误判为未知函数；stmt.Condition 保留原文，由 ToStreamConfig 提取。
+	for range notDepths {
+		conditions = append(conditions, ")")
+	}
 	whereCondition := strings.Join(conditions, " ")
 	if whereCondition != "" {
 		validated, _, _ := extractWhereAnalyticCalls(whereCondition)
@@ -552,6 +569,37 @@ func (p *Parser) parseWhere(stmt *SelectStatement) error {
 
 	stmt.Condition = whereCondition
 	return nil
+}
+
+// isLogicalNotPosition reports whether a NOT read now starts a predicate (logical
+// negation) rather than being part of "IS NOT NULL" or "x NOT LIKE ...".
+func isLogicalNotPosition(conditions []string) bool {
+	if len(conditions) == 0 {
+		return true
+	}
+	switch conditions[len(conditions)-1] {
+	case "(", "&&", "||":
+		return true
+	}
+	return false
+}
+
+// closeLoweredNots closes the "!(" groups opened for logical NOTs when the token
+// about to be emitted ends their operand (AND/OR, or a ")" of an enclosing group, at
+// the depth the NOT was read), and keeps the parenthesis depth up to date.
+func closeLoweredNots(conditions []string, notDepths []int, depth int, tok Token) ([]string, []int, int) {
+	for len(notDepths) > 0 && notDepths[len(notDepths)-1] == depth &&
+		(tok.Type == TokenAND || tok.Type == TokenOR || tok.Type == TokenRParen) {
+		conditions = append(conditions, ")")
+		notDepths = notDepths[:len(notDepths)-1]
+	}
+	switch tok.Type {
+	case TokenLParen:
+		depth++
+	case TokenRParen:
+		depth--
+	}
+	return conditions, notDepths, depth
 }
 
 func (p *Parser) parseWindowFunction(stmt *SelectStatement, winType string) error {
@@ -1522,6 +1570,8 @@ func (p *Parser) parseHaving(stmt *SelectStatement) error {
 	iterations := 0
 
 	var conditions []string
+	var notDepths []int
+	depth := 0
 	for {
 		iterations++
 		// 安全检查：防止无限循环
@@ -1533,6 +1583,7 @@ func (p *Parser) parseHaving(stmt *SelectStatement) error {
 		if tok.Type == TokenLIMIT || tok.Type == TokenEOF || tok.Type == TokenWITH {
 			break
 		}
+		conditions, notDepths, depth = closeLoweredNots(conditions, notDepths, depth, tok)
 
 		switch tok.Type {
 		case TokenIdent, TokenNumber:
@@ -1556,7 +1607,18 @@ func (p *Parser) parseHaving(stmt *SelectStatement) error {
 		case TokenNULL:
 			conditions = append(conditions, "NULL")
 		case TokenNOT:
-			conditions = append(conditions, "NOT")
+			// A logical NOT (at the start of a predicate: after nothing, "(", "&&",
+			// "||" or another NOT) is lowered like AND/OR: expr-lang has no upper-case
+			// NOT, so "NOT (p)" used to compile as a call of an undefined function and
+			// reject every row. SQL's NOT binds looser than comparisons, expr-lang's "!"
+			// tighter, so the operand is parenthesised up to the next AND/OR at the same
+			// depth. "IS NOT NULL" / "x NOT LIKE" keep the keyword.
+			if isLogicalNotPosition(conditions) {
+				conditions = append(conditions, "!", "(")
+				notDepths = append(notDepths, depth)
+			} else {
+				conditions = append(conditions, "NOT")
+			}
 		default:
 			// Handle string value quotes
 			if len(conditions) > 0 && conditions[len(conditions)-1] == "'" {
@@ -1568,6 +1630,9 @@ func (p *Parser) parseHaving(stmt *SelectStatement) error {
 	}
 
 	// Validate functions in HAVING condition
+	for range notDepths {
+		conditions = append(conditions, ")")
+	}
 	havingCondition := strings.Join(conditions, " ")
 	if havingCondition != "" {
 		validator := NewFunctionValidator(p.errorRecovery)
